@@ -81,7 +81,14 @@ func applyPatch(doc document.Document, p patch.Patch) (document.Document, error)
 	return nil, fmt.Errorf("action '%s' is not supported", action)
 }
 
-func applyJSON(doc document.Document, entry interface{}) (document.Document, error) {
+func applyJSON(doc document.Document, entry interface{}) (result document.Document, err error) {
+	// the JSON patch engine panics on some malformed operations (e.g. 'test' without value, negative array index)
+	defer func() {
+		if r := recover(); r != nil {
+			result, err = nil, fmt.Errorf("failed to apply JSON patch: %v", r)
+		}
+	}()
+
 	logger.Debug("Applying JSON patch", logfields.WithPatch(entry))
 
 	bytes, err := json.Marshal(entry)
